@@ -179,22 +179,32 @@ impl BufferManager {
         size: usize,
         region: MemoryRegion,
     ) -> Option<MemoryGrant> {
-        // Check if we can allocate
-        let current = self.allocated.load(Ordering::Relaxed);
-
-        if current + size > self.hard_limit {
-            // Try eviction first
-            self.run_eviction_cycle(true);
-
-            // Check again
-            let current = self.allocated.load(Ordering::Relaxed);
-            if current + size > self.hard_limit {
-                return None;
+        // Reserve the bytes with a compare-and-swap loop: checking the limit and adding
+        // the size in two separate steps would let concurrent callers pass the check
+        // together and exceed the hard limit.
+        let mut evicted = false;
+        let mut current = self.allocated.load(Ordering::Relaxed);
+        loop {
+            if current.saturating_add(size) > self.hard_limit {
+                if evicted {
+                    return None;
+                }
+                // Try eviction first, then check again
+                self.run_eviction_cycle(true);
+                evicted = true;
+                current = self.allocated.load(Ordering::Relaxed);
+                continue;
+            }
+            match self.allocated.compare_exchange_weak(
+                current,
+                current + size,
+                Ordering::AcqRel,
+                Ordering::Relaxed,
+            ) {
+                Ok(_) => break,
+                Err(actual) => current = actual,
             }
         }
-
-        // Perform allocation
-        self.allocated.fetch_add(size, Ordering::Relaxed);
         self.region_allocated[region.index()].fetch_add(size, Ordering::Relaxed);
 
         // Check pressure and potentially trigger background eviction
